@@ -20,7 +20,7 @@ RULE = ('conn arm: 2-3 connections on a DB over FileStorage (simulated '
         'disk), DemoStorage or MappingStorage, their transaction steps '
         '(begin, modify, add references, commit, abort) interleaved by '
         'seed so that pairs and chains of writers start from the same '
-        'revision; classes with a recording deterministic resolver, none, '
+        'revision (also commits that leave the state unchanged); classes with a recording deterministic resolver, none, '
         'a raising one and one that raises ConflictError; states hold '
         'strong references (oid+class and bare-oid formats) and weak '
         'references; oracle: the stored revision decodes to exactly '
@@ -78,7 +78,9 @@ def gen_undo(r, tier):
                            sizes=(0, 0, 10, 200))
             for rec in op['recs']:
                 rec['cls'] = cls_of[rec['o'] % noids]
-                if rec.get('serial') in ('bogus', 'zero', 'stale2'):
+                # (stale2 after an undo: the writer's base has the same
+                # bytes as the committed undo revision)
+                if rec.get('serial') in ('bogus', 'zero'):
                     rec.pop('serial')
             ops.append(op)
         else:
@@ -116,7 +118,9 @@ def gen(seed, tier):
     nobj = r.choice((1, 2, 3))
     nconn = r.choice((2, 2, 3))
     steps = []
-    kinds = ('plain', 'plain', 'ref', 'ref_na', 'wref')
+    # touch: committed without a change of state (_p_changed = True): the
+    # committed revision then has the bytes of the other writer's base
+    kinds = ('plain', 'plain', 'ref', 'ref_na', 'wref', 'touch')
     for _ in range(r.randint(1, 4)):
         pat = r.choice(('pair', 'pair', 'chain', 'random'))
         if pat == 'random':
@@ -239,6 +243,10 @@ def run_conn(case):
                 o.token
                 if o._p_oid not in bases[ci]:
                     bases[ci][o._p_oid] = o._p_serial
+                if step[3] == 'touch' and not o._p_changed:
+                    o._p_changed = True
+                    trace.append('t%d' % ci)
+                    continue
                 o.token = t
                 o.n = o.n + 1
                 o.log = o.log + [t]
